@@ -36,7 +36,7 @@ import traceback
 from typing import Any, Dict, Iterable, List, Optional, Sequence, Tuple
 
 ID = "C22"
-GEN = ["SortSites", "WriteSites"]
+GEN = ["SortSites", "WriteSites", "StrSites"]
 TARGETS = ["cpp", "csharp", "golang", "java", "jsonschema", "python", "typescript", "xsd"]
 PY = "/venv/bin/python"
 WORKERS = 6
@@ -128,6 +128,15 @@ def _worker_step(step: Dict[str, Any]) -> Dict[str, Any]:
                 yield top, dirs, nondirs
 
         os.scandir, os.listdir, os.walk = scandir, listdir, walk  # type: ignore
+    # Interpreter-level "say it once" state is reset, as in a fresh interpreter: CPython prints a warning (e.g. the
+    # ``FutureWarning: Possible nested set`` of ``re.compile`` for a pattern like ``[[:alpha:]]``) once per code location and
+    # compiles a pattern once per process; a run of the program always starts with both empty.  (State of the *program* -
+    # module-level caches, counters, the model cache - is deliberately kept: that is the history axis.)
+    re.purge()
+    for module in list(sys.modules.values()):
+        registry = getattr(module, "__warningregistry__", None)
+        if registry:
+            registry.clear()
     saved_argv = sys.argv
     sys.argv = ["aas-core-codegen", "--model_path", step["model"], "--snippets_dir", step["snippets"], "--output_dir", step["out"], "--target", step["target"]]
     try:
@@ -163,7 +172,10 @@ if __name__ == "__main__":
 from harness.core import REPO, VERIF, Ctx, corpus, crash_name, dec_list, enc_list, enc_text  # noqa: E402
 from harness.extract import HEADER, ExtractError, _func, _lean_str, _parse, lean_text  # noqa: E402
 
+from harness.props import c22_inputs as inputs  # noqa: E402
+
 CORPUS_DIR = VERIF / "corpus" / ID
+SDK_TARGETS = ["cpp", "csharp", "golang", "java", "python", "typescript"]
 
 # --------------------------------------------------------------------------- Gen/SortSites.lean
 
@@ -714,6 +726,68 @@ def gen_WriteSites(repo: pathlib.Path) -> str:
     return "\n".join(lines)
 
 
+# --------------------------------------------------------------------------- Gen/StrSites.lean
+
+
+def scan_str_sites(repo: pathlib.Path) -> List[Tuple[str, List[str]]]:
+    """[(class, interpolated expressions)] for every concrete ``__str__`` of ``intermediate/type_inference.py``: the type
+    annotations are what the type-inference errors of all generators print.  An expression is listed as written
+    (``self.func.name``); a conversion is appended (``self.func!r``).  Abstract ones (only ``raise``) are skipped."""
+    mod = _parse(repo, "aas_core_codegen/intermediate/type_inference.py")
+    out: List[Tuple[str, List[str]]] = []
+    for cls in [n for n in mod.body if isinstance(n, ast.ClassDef)]:
+        for fn in [n for n in cls.body if isinstance(n, ast.FunctionDef) and n.name == "__str__"]:
+            rets = [n for n in ast.walk(fn) if isinstance(n, ast.Return) and n.value is not None]
+            if not rets:
+                if any(isinstance(n, ast.Raise) for n in ast.walk(fn)):
+                    continue
+                raise ExtractError(f"{cls.name}.__str__ neither returns nor raises")
+            exprs: List[str] = []
+
+            def collect(v: ast.AST) -> None:
+                if isinstance(v, ast.JoinedStr):
+                    for part in v.values:
+                        if isinstance(part, ast.FormattedValue):
+                            conv = {-1: "", 115: "!s", 114: "!r", 97: "!a"}.get(part.conversion, "!?")
+                            exprs.append(ast.unparse(part.value) + conv)
+                            if part.format_spec is not None:
+                                collect(part.format_spec)
+                elif isinstance(v, ast.Constant) and isinstance(v.value, str):
+                    pass
+                elif isinstance(v, ast.Call) and isinstance(v.func, ast.Name) and v.func.id == "str" and len(v.args) == 1:
+                    collect(v.args[0]) if isinstance(v.args[0], (ast.JoinedStr, ast.Constant)) else exprs.append(ast.unparse(v.args[0]))
+                elif isinstance(v, ast.BinOp) and isinstance(v.op, (ast.Add, ast.Mod)):
+                    collect(v.left)
+                    collect(v.right)
+                else:
+                    exprs.append(ast.unparse(v))
+
+            for r in rets:
+                collect(r.value)
+            out.append((cls.name, exprs))
+    if not out:
+        raise ExtractError("no __str__ of a type annotation found in intermediate/type_inference.py")
+    return out
+
+
+def gen_StrSites(repo: pathlib.Path) -> str:
+    sites = scan_str_sites(repo)
+    ls = lambda xs: "[" + ", ".join(_lean_str(x) for x in xs) + "]"  # noqa: E731
+    lines = [
+        HEADER.format(src="the __str__ methods of the type annotations in intermediate/type_inference.py").rstrip("\n"),
+        "namespace AasVerif.Gen.StrSites",
+        "",
+        "/-- What every concrete `__str__` of a type annotation interpolates: (class, expressions).  These strings are what the",
+        "type-inference errors print as \"the type\" of an expression. -/",
+        "def typeStrSites : List (String × List String) := [",
+        ",\n".join(f"  ({_lean_str(c)}, {ls(xs)})" for c, xs in sites) + "]",
+        "",
+        "end AasVerif.Gen.StrSites",
+        "",
+    ]
+    return "\n".join(lines)
+
+
 # --------------------------------------------------------------------------- cases
 
 
@@ -1090,6 +1164,119 @@ def random_cases(ctx: Ctx, n: int) -> List[Case]:
     return out
 
 
+def multi_snippets(target: str) -> pathlib.Path:
+    """Snippets which satisfy every target for the models of the new families (they live in the corpus, so a replay finds them)."""
+    return CORPUS_DIR / "models" / "multi" / "snippets" / target
+
+
+def _inline_case(name: str, target: str, text: str, failing: bool) -> Case:
+    return Case(name, target, pathlib.Path("<inline>"), multi_snippets(target), failing, {"model_text": text, "snippets": None})
+
+
+def degenerate_cases(thorough: bool) -> List[Case]:
+    """Accepted-but-degenerate collections (repeated / many / twin / single / no members in every list-like construct of the
+    language) for every target: three models in the quick tier, one per construct family in the thorough tier."""
+    return [_inline_case(name, t, text, False) for name, text in inputs.degenerate_models(grouped=not thorough).items() for t in TARGETS]
+
+
+def random_degenerate_cases(ctx: Ctx, n: int) -> Tuple[List[Case], List[Case]]:
+    """Seeded random members of the degenerate class: (accepted x every target, refused x one target)."""
+    ok: List[Case] = []
+    refused: List[Case] = []
+    for i in range(n):
+        text = inputs.random_degenerate_model(ctx.rng)
+        ok += [_inline_case(f"degrand_{i}", t, text, False) for t in TARGETS]
+        refused.append(_inline_case(f"refusedrand_{i}", ctx.rng.choice(TARGETS), inputs.random_degenerate_refused(ctx.rng), True))
+    return ok, refused
+
+
+def ill_typed_cases(thorough: bool) -> List[Case]:
+    """The ill-typed invariant matrix.  Quick: one model per context (a class per atom) on a rotating SDK target, and the
+    pairs which the front end refuses one by one; thorough: every batch on every SDK target, the batches per atom and
+    every pair on its own."""
+    out: List[Case] = []
+    batches = inputs.ill_typed_batches()
+    for i, (name, pairs) in enumerate(batches):
+        for t in SDK_TARGETS if thorough else [SDK_TARGETS[i % len(SDK_TARGETS)]]:
+            out.append(_inline_case("illtyped_" + name, t, inputs.ill_typed_model(pairs, list_of_str=t != "java"), True))
+    if thorough:
+        for i, (name, pairs) in enumerate(inputs.ill_typed_atom_batches()):
+            t = SDK_TARGETS[(i + 3) % len(SDK_TARGETS)]
+            out.append(_inline_case("illtyped_" + name, t, inputs.ill_typed_model(pairs, list_of_str=t != "java"), True))
+    for name, pairs in inputs.ill_typed_singles(full=thorough):
+        out.append(_inline_case("illtyped_" + name, "python", inputs.ill_typed_model(pairs), True))
+    return out
+
+
+def refused_cases(ctx: Ctx, thorough: bool) -> List[Case]:
+    """The statement on *refused* meta-models (stderr and exit status; the property quantifies over all meta-models):
+    every ``unexpected`` fixture of the repository, the refused degenerate collections, one representative per shape of a
+    report line of the front end (see ``c22_inputs.build_representatives``), the ill-typed invariant matrix.  Front-end
+    refusals do not depend on the target, so those rotate over the eight targets."""
+    out: List[Case] = []
+    k = 0
+
+    def rot() -> str:
+        nonlocal k
+        k += 1
+        return TARGETS[k % len(TARGETS)]
+
+    for p in sorted((REPO / "dev/test_data").glob("**/unexpected/**/meta_model.py")):
+        t = rot()
+        out.append(Case("unexpected:" + p.parent.relative_to(REPO / "dev/test_data").as_posix(), t, p, multi_snippets(t), True))
+    for name, text in inputs.degenerate_refused().items():
+        out.append(_inline_case("refused_" + name, rot(), text, True))
+    for name, (targets, text) in inputs.generator_refused().items():
+        for t in targets:
+            out.append(_inline_case("genrefused_" + name, t, text, True))
+    rep = VERIF / inputs.REPRESENTATIVES
+    if rep.exists():
+        for r in json.loads(rep.read_text()):
+            out.append(_inline_case("rep_" + r["name"], rot(), r["text"], True))
+    out += ill_typed_cases(thorough)
+    return out
+
+
+def random_refused_cases(ctx: Ctx, n: int) -> List[Case]:
+    """Seeded random refused models: random members of the enumerated invalid models of C01 beyond the representatives,
+    random role mutants of its rich base model, single-rule mutants of a random valid model of the shared platform."""
+    from harness import ast_mutate, mm
+    from harness.props import c01
+
+    out: List[Case] = []
+
+    def add(name: str, text: str) -> None:
+        try:
+            text.encode("utf-8")
+        except UnicodeError:
+            return
+        if "\x00" not in text:
+            out.append(_inline_case(name, ctx.rng.choice(TARGETS), text, True))
+
+    try:
+        pool = c01.enumerated_cases("quick")
+        for i in range(n):
+            kind, text, _ = pool[ctx.rng.randrange(len(pool))]
+            add(f"c01rand_{i}_{kind}", text)
+    except Exception as e:  # noqa  (the C01 harness is not ours; its absence must not break this check)
+        ctx.note(f"C01 enumerated cases unavailable: {type(e).__name__}: {e}")
+    for i in range(n // 3):
+        try:
+            m = ast_mutate.random_role_mutant(c01.RICH_BASE, ctx.rng)
+        except Exception:  # noqa
+            m = None
+        if m is not None:
+            add(f"rolerand_{i}", m[1])
+    try:
+        model = mm.random_mm(ctx.rng, 3)
+        ms = list(mm.mutants(model, ctx.rng, 1))
+        for i, (rule, text) in enumerate(ctx.rng.sample(ms, min(len(ms), n // 3))):
+            add(f"rulemutant_{i}_{rule}", text)
+    except Exception as e:  # noqa
+        ctx.note(f"mm mutants unavailable: {type(e).__name__}: {e}")
+    return out
+
+
 # --------------------------------------------------------------------------- running
 
 
@@ -1218,7 +1405,31 @@ def _strip_traceback(stderr: str) -> str:
         return stderr
     head, _, tail = stderr.partition("Traceback (most recent call last):")
     lines = [ln for ln in tail.split("\n") if ln and not ln.startswith(" ")]
-    return head + "<traceback> " + (lines[-1] if lines else "")
+    # an uncaught exception is a defect by itself (C01, C02); the ``repr`` of the objects in its message is not compared
+    return head + "<traceback> " + _ADDRESS_RE.sub("0x<address>", lines[-1] if lines else "")
+
+
+_ADDRESS_RE = re.compile(r"0x[0-9a-fA-F]{6,}")
+
+
+def address_leak(ref: Dict[str, Any], res: Dict[str, Any]) -> Optional[Tuple[str, str]]:
+    """If two outcomes differ *only* in hexadecimal addresses: (stream, shape of the first line that carries one) - an
+    ``id()`` / default ``repr`` reached the output, which differs from process to process."""
+    if res["rc"] != ref["rc"]:
+        return None
+    for k in ("stderr", "stdout"):
+        if res[k] != ref[k]:
+            if _ADDRESS_RE.sub("@", res[k]) != _ADDRESS_RE.sub("@", ref[k]):
+                return None
+            for a, b in zip(ref[k].split("\n"), res[k].split("\n")):
+                if a != b:
+                    # the root cause is the object whose default representation is printed: ``<module.Class [name] at 0x...>``
+                    m = re.search(r"<([A-Za-z_][\w.]*)(?: object| instance)?(?: [^<>\n]*?)? at 0x[0-9a-fA-F]+>", a)
+                    if m is not None:
+                        return k, "<" + m.group(1) + " at 0x...>"
+                    shape = re.sub(r"\s+", " ", inputs.message_shape(re.sub(r"^\s*At line \d+ and column \d+: ", "", a.strip())))
+                    return k, shape[:90]
+    return None
 
 
 # Axes of a step (the hash seed and the history are properties of the process the step runs in).
@@ -1259,6 +1470,7 @@ class Runner:
         self.refs: Dict[str, Dict[str, Any]] = {}
         self.counter = 0
         self.foreign_dirs: List[pathlib.Path] = []  # directories outside the scratch directory (tmpfs)
+        self.batch_wall: Dict[str, float] = {}
 
     def cleanup(self) -> None:
         for d in self.foreign_dirs:
@@ -1372,6 +1584,13 @@ class Runner:
         step.res = res
 
     def run_batch(self, b: Batch) -> None:
+        t0 = time.time()
+        try:
+            self._run_batch(b)
+        finally:
+            self.batch_wall[b.name] = round(time.time() - t0, 1)
+
+    def _run_batch(self, b: Batch) -> None:
         tmpdir = b.dir / "tmp"
         tmpdir.mkdir(parents=True, exist_ok=True)
         if b.cli:
@@ -1418,13 +1637,16 @@ class Runner:
     # ---- reference: one process, PYTHONHASHSEED=0, fresh output directories, natural listing
     def references(self, cases: Sequence[Case]) -> None:
         todo: List[Case] = []
+        seen: set = set()
         for c in cases:
-            if c.id not in self.refs and c.id not in [t.id for t in todo]:
+            if c.id not in self.refs and c.id not in seen:
+                seen.add(c.id)
                 todo.append(c)
         if not todo:
             return
         # two processes when there is much to do (halves the wall time)
-        halves = [todo] if len(todo) < 12 else [todo[0::2], todo[1::2]]
+        n_chunks = 1 if len(todo) < 12 else (2 if len(todo) < 200 else 6)
+        halves = [todo[i::n_chunks] for i in range(n_chunks)]
         batches = [Batch(f"ref{i}", "0", [Step(c, {}) for c in h]) for i, h in enumerate(halves)]
         self.run_batches(batches)
         for b in batches:
@@ -1507,7 +1729,7 @@ def report(ctx: Ctx, runner: Runner, step: Step, batch: Batch, bad: List[Tuple[s
 # --------------------------------------------------------------------------- plan of a run
 
 
-def plan_batches(ctx: Ctx, ok_cases: List[Case], bad_cases: List[Case], donors: Dict[str, str], thorough: bool) -> List[Batch]:
+def plan_batches(ctx: Ctx, ok_cases: List[Case], bad_cases: List[Case], donors: Dict[str, str], thorough: bool, plain_cases: Sequence[Case] = ()) -> List[Batch]:
     rng = ctx.rng
     # "random" as concrete seeds drawn from ctx.rng, so that a replay re-runs the same seed
     seeds = ["1", "2", str(rng.randrange(3, 1 << 32))] + (["3", str(rng.randrange(3, 1 << 32)), "unset"] if thorough else [])
@@ -1534,6 +1756,9 @@ def plan_batches(ctx: Ctx, ok_cases: List[Case], bad_cases: List[Case], donors: 
             steps.append(Step(c, var))
             if thorough and not heavy:
                 steps.append(Step(c, {"rseed": rs, "listing": ["reversed", f"shuffle:{(rs >> 10) % 1000}"][k % 2]}))
+        # the seeded random degenerate collections plainly (the hash seed is the axis)
+        for c in plain_cases if (thorough or bi != 1) else []:
+            steps.append(Step(c, {"rseed": 0}))
         # a plain repetition of some cases at the end of the process (module-level state)
         for c in rng.sample(ok_cases + bad_cases, min(6 if not thorough else 30, len(ok_cases) + len(bad_cases))):
             if c.model != "aas_core_meta.v3":
@@ -1568,7 +1793,8 @@ ENUM_SEEDS = ["3", "4", "5", "6"]
 
 
 def plan_enumerated(
-    ok_enum: List[Case], schema_cases: List[Case], tree_cases: List[Case], bad_cases: List[Case], extra_ok: List[Case], thorough: bool
+    ok_enum: List[Case], schema_cases: List[Case], tree_cases: List[Case], bad_cases: List[Case], extra_ok: List[Case], thorough: bool,
+    plain: Sequence[Tuple[Case, int]] = (),
 ) -> List[Batch]:
     """The seed-independent slice (no ``ctx.rng``): four further hash seeds, each process running
 
@@ -1606,7 +1832,39 @@ def plan_enumerated(
     for hs in seeds:
         for c in schema_cases + bad_cases:
             steps[hs].append(Step(c, {"rseed": 0}))
+    # (d) the degenerate collections plainly, each in ``n`` of the processes (with the reference: n + 1 hash seeds)
+    for i, (c, n) in enumerate(plain):
+        for j in range(min(n, len(seeds))):
+            steps[seeds[(i + j) % len(seeds)]].append(Step(c, {"rseed": 0}))
     return [Batch(f"enum-seed{hs}", hs, st) for hs, st in steps.items()]
+
+
+REFUSED_SEEDS = ["3", "5"]
+
+
+def plan_refused(refused: List[Case], thorough: bool) -> List[Batch]:
+    """Seed-independent: every refused meta-model plainly in a further process with another hash seed (two processes, to
+    use the cores), and - where several offenders make an *order* observable, and cheaply - in a third one; thorough: all of
+    them in four further processes.  With the reference process: >= 2 resp. >= 3 (thorough 5) processes and hash seeds."""
+    seeds = REFUSED_SEEDS + (["4", "6"] if thorough else [])
+    out: List[Batch] = []
+    n_batch = 0
+    for n, hs in enumerate(seeds):
+        todo = []
+        for c in refused:
+            if thorough or n == 0:
+                todo.append(c)
+            elif c.model.startswith(("unexpected:", "refused_", "genrefused_")):
+                todo.append(c)
+            elif c.model.startswith("illtyped_ctx["):
+                n_batch += 1
+                if n_batch % 3 == 0:
+                    todo.append(c)
+        for half in (0, 1):
+            part = todo[half::2] if len(todo) > 150 else (todo if half == 0 else [])
+            if part:
+                out.append(Batch(f"refused-seed{hs}-{half}", hs, [Step(c, {"rseed": 0}) for c in part]))
+    return out
 
 
 def oracle(ctx: Ctx) -> None:
@@ -1627,7 +1885,12 @@ def oracle(ctx: Ctx) -> None:
     trees = bad_tree_cases()
     ok_cases = multi_cases() + sets + fixt + rand
     bad_cases = failing_cases(ctx) + trees
-    cases = ok_cases + bad_cases
+    new = NewFamilies()
+    new.degenerate = degenerate_cases(thorough)
+    new.degenerate_random, refused_random = random_degenerate_cases(ctx, ctx.n(1, 4))
+    new.refused = refused_cases(ctx, thorough)
+    new.refused_random = refused_random + random_refused_cases(ctx, ctx.n(45, 400))
+    cases = ok_cases + bad_cases + new.all()
     by_id = {c.id: c for c in cases}
     for r in recorded:
         c = case_from_json(r["case"])
@@ -1637,9 +1900,22 @@ def oracle(ctx: Ctx) -> None:
     for c in cases:
         c.materialize(ctx)
     try:
-        _oracle_run(ctx, runner, recorded, cases, by_id, ok_cases, bad_cases, sets, rand, trees, fixt, thorough)
+        _oracle_run(ctx, runner, recorded, cases, by_id, ok_cases, bad_cases, sets, rand, trees, fixt, thorough, new)
     finally:
         runner.cleanup()
+
+
+class NewFamilies:
+    """The case families added after the second round of seeded changes."""
+
+    def __init__(self) -> None:
+        self.degenerate: List[Case] = []  # accepted degenerate collections, every target (enumerated)
+        self.degenerate_random: List[Case] = []  # seeded
+        self.refused: List[Case] = []  # refused meta-models (enumerated)
+        self.refused_random: List[Case] = []  # seeded
+
+    def all(self) -> List[Case]:
+        return self.degenerate + self.degenerate_random + self.refused + self.refused_random
 
 
 def _oracle_run(
@@ -1655,6 +1931,7 @@ def _oracle_run(
     trees: List[Case],
     fixt: List[Case],
     thorough: bool,
+    new: "NewFamilies",
 ) -> None:
     t0 = time.time()
     runner.references(cases)
@@ -1664,7 +1941,9 @@ def _oracle_run(
         ref = runner.refs[c.id]
         ok = ref["rc"] == 0 and ref["stdout"].startswith("Code generated to: <out>") and len(ref["tree"]) > 0
         ctx.hit("reference:generated" if ok else ("reference:crashed" if "<traceback>" in ref["stderr"] or str(ref["rc"]).startswith("crash") else "reference:rejected"))
-        if ok == c.failing:
+        if c.model.startswith(("illtyped_", "c01rand_", "rolerand_", "rep_")):
+            ctx.hit("refused-family:" + c.model.split("_")[0] + (":accepted" if ok else ":refused"))
+        elif ok == c.failing:
             ctx.note(f"reference run of {c.id} was expected to {'fail' if c.failing else 'succeed'}: rc {ref['rc']}, stderr {ref['stderr'][:200]!r}")
             ctx.hit("reference:unexpected-outcome")
         if c.failing:
@@ -1692,9 +1971,12 @@ def _oracle_run(
         bad_cases=[c for c in bad_cases if c not in trees],
         extra_ok=[c for c in fixt if c.model != "aas_core_meta.v3"] if thorough else [c for c in rand if c.target != "python"],
         thorough=thorough,
+        # the constant sets with repeated members in three further hash seeds (four with the reference), the rest in two
+        plain=[(c, 3 if c.model in ("deg_sets", "deg_dup_str", "deg_dup_int", "deg_dup_float", "deg_dup_bool", "deg_supersets") or thorough else 2) for c in new.degenerate],
     )
+    batches += plan_refused(new.refused, thorough)
     n_enum1 = len(batches)
-    batches += plan_batches(ctx, ok_cases, bad_cases, donors, thorough)
+    batches += plan_batches(ctx, ok_cases, bad_cases + new.refused_random, donors, thorough, plain_cases=new.degenerate_random)
     ml = multi_cases()[TARGETS.index("python")]
     ctx.extra_cov["natural_listing_of_multi_python_snippets"] = natural_listing(ml.snippets)[:12]
     t1 = time.time()
@@ -1702,7 +1984,10 @@ def _oracle_run(
     ctx.extra_cov["variation_processes"] = len(batches)
     ctx.extra_cov["variation_runs"] = sum(len(b.steps) for b in batches)
     ctx.extra_cov["variation_wall_s"] = round(time.time() - t1, 1)
+    ctx.extra_cov["slowest_processes_s"] = dict(sorted(runner.batch_wall.items(), key=lambda kv: -kv[1])[:10])
+    ctx.extra_cov["steps_per_process"] = {b.name: len(b.steps) for b in batches if len(b.steps) > 1}
     reported = set()
+    leaks: set = set()
     for bi, b in enumerate(batches):
         stream = "corpus" if bi < n_corpus else ("enumerated" if n_enum0 <= bi < n_enum1 else ("cli" if b.cli else "in-process"))
         for pos, st in enumerate(b.steps):
@@ -1722,6 +2007,18 @@ def _oracle_run(
             bad = runner.judge(st, b.cli)
             if len(ctx.samples) < 6 and (pos % 17 == 0):
                 ctx.sample({"case": c.id, "hashseed": b.hashseed, "variation": st.var, "cli": b.cli, "rc": st.res["rc"], "files": len(st.res["tree"]), "verdict": bad})
+            leak = address_leak(runner.refs[c.id], st.res) if bad and st.obstructed is None else None
+            if leak is not None:
+                # a memory address in the output: differs from process to process whatever the step varies
+                if leak in leaks or len(leaks) >= 20:
+                    continue
+                leaks.add(leak)
+                ctx.fail(
+                    {"case": c.to_json(), "variation": {"hashseed": b.hashseed}},
+                    f"{c.id}: {leak[0]} carries a memory address which differs between two processes: {bad[0][1]}",
+                    f"C22:process:{leak[0]}-address:{leak[1]}",
+                )
+                continue
             if bad:
                 dedup = (c.id, tuple(st.axes()), b.hashseed, bad[0][0])
                 if dedup in reported or len(reported) > 12:
